@@ -23,6 +23,25 @@ P['C14'] = dict(cat='other', tech='effect-set (purity), source-inventory (determ
 P['C13'] = dict(cat='other', tech='new/delete pairing, buffer-contract polynomials, write-source classification, dangling-return and ownership rules, index-site inventory with guard idioms (custom libTooling checker)',
    text='Partial claim: decides necessary structural conditions of memory safety over all functions (allocation/deallocation form, buffer contracts at every caller, every index site guarded / invariant-justified / listed, no dangling returns, relocation-stable element classes). Does not decide heap safety of whole histories.',
    note='Allocation failure excluded; vector reallocation moves nothrow-movable elements. ' + TB, ref='4/C13')
+CODEC = 'I/O-sequence extraction from the AST (callee splicing, polynomial widths, path-sensitive local values) matched against a hand transcription of the C3D layout (custom libTooling checker)'
+P['C01'] = dict(cat='other', tech=CODEC + '; copy-completeness dataflow',
+   text='Partial claim: writer and reader tables both agree with the layout table field by field (offset, width, member, encodings as inverse pairs), and every user-provided copy constructor is component-complete. Decides these necessary conditions of the round trip, not equality of values.',
+   note='Trusts spec/c3d_layout.json. ' + TB, ref='4/C01')
+P['C02'] = dict(cat='other', tech=CODEC + '; ordering and label-binding rules',
+   text='Partial claim: the reader agrees with an independent transcription of the C3D layout (order, width, signedness, offset polynomials, loop nesting, record grammar, type map enumerated), labels are bound by position, the header is reconciled before the data is read. Does not compare decoded values with an independent decoder.',
+   note='Trusts spec/c3d_layout.json (PDF could not be rendered offline; transcribed from the format definition). ' + TB, ref='4/C02')
+P['C03'] = dict(cat='other', tech=CODEC + '; slot pairing, padding interval, header-synchronisation coverage via effect sets',
+   text='Partial claim: the writer agrees with the layout table incl. in-memory source types; every blank slot is patched within its width and the stream restored; padding count in [1,512]; derived header words are all synchronised by updateHeader. Two genuine findings recorded (K1 data-start word, K2 scale word). Does not decide the patched numbers per alignment residue.',
+   note='Trusts spec/c3d_layout.json. ' + TB, ref='4/C03')
+P['C04'] = dict(cat='other', tech=CODEC + '; re-emission completeness via effect sets',
+   text='Partial claim: everything a reader assigns is re-emitted (or listed as canonicalised), CHAR cells are written at the declared width in both branches, BYTE payload at its own width, id <-> position inverse with placeholders skipped. Does not decide equality of reloaded values.',
+   note='Trusts spec/c3d_layout.json. ' + TB, ref='4/C04')
+P['C12'] = dict(cat='other', tech='def-use closure of the REAL payload (types, conversions, arithmetic) + ' + CODEC,
+   text='Partial claim: float payload path is copy-only and float-typed end to end, integer widths/signedness per field follow the layout table, raw bytes are zero-extended. The numeric correctness of hex2uint/hex2int over all bit patterns is declined (needs execution or a solver).',
+   note='Assumes IEEE binary32 floats copied bit-exactly and a little-endian host. ' + TB, ref='4/C12')
+P['C17'] = dict(cat='other', tech=CODEC + '; truncating-write rule with writers-of-member proofs and range-guard dominance',
+   text='Partial claim: length/count fields are read with the format\'s signedness and written from full-length values (at-limit clause); every truncating write is proven to fit or must be range-guarded (beyond-limit clause): 16 genuine unguarded sites recorded as known findings (K7), any new one is a violation.',
+   note='Trusts spec/c3d_layout.json. ' + TB, ref='4/C17')
 NA = {
  'C19': 'compares compiled artefacts across optimisation levels / link kinds; not decidable from source without running the builds (DESIGN 4/C19)',
 }
